@@ -1,12 +1,15 @@
 SPECIFICATION DSpec
 CONSTANTS
-  Pinned = {"default_text"}
+  Pinned = {"default_text", "const_as_field"}
   Pads = {}
   FmtSel = {}
   ClsSel = {}
   K = 4
   DerivedMax = 0
   MaxFields = 1
+  MaxConsts = 1
+  CKinds = {"int", "text", "tuple", "msgid", "method"}
   Kinds = {"?", "H", "I", "q", "20s", "varlenH", "varlenHutf8", "bits", "payload", "payload-list", "address", "arrayH-q", "raw"}
-INVARIANT RoundTripDef
+INVARIANT ConstsOffWire
 INVARIANT DefaultsUsed
+INVARIANT RoundTripDef
